@@ -370,7 +370,8 @@ def build_units(tier: str) -> list[Unit]:
                 continue
             tag = ",".join(f"{k}={v}" for k, v in alts.items())
             units.append(Unit(f"insert/request/{cname}/{tag}",
-                              insert_harness("request", cname, cls, alts), setup=install_db))
+                              insert_harness("request", cname, cls, alts), setup=install_db,
+                              allow_empty=True))
     for cname, cls in response_classes().items():
         if cname in iso.INTERNAL_RESPONSE_BASES or cname not in iso.RESPONSES:
             continue
@@ -383,7 +384,7 @@ def build_units(tier: str) -> list[Unit]:
             dsz = 1 if any(v.startswith("dict_") for v in alts.values()) else 0
             units.append(Unit(f"insert/response/{cname}/{tag}",
                               insert_harness("response", cname, cls, alts, dsz),
-                              setup=install_db,
+                              setup=install_db, allow_empty=True,
                               bounded="dict argument with 1 entry" if dsz else ""))
     return units
 
